@@ -38,7 +38,7 @@ func init() {
 				},
 				Run:  c03Structured,
 				Rule: "hand-assembled streams: random metadata (0-2 chunks), 1..40 instructions over all opcodes, non-canonical number forms, repeat counts up to 32, optional reserved opcodes and truncation",
-				Min:  map[string]int64{"accepted": 1000, "rejected": 1000},
+				Min:  map[string]int64{"accepted": 1000, "rejected": 1000, "metadata_only_streams": 5000},
 			},
 			{
 				Name: "corpus-mutation",
@@ -172,6 +172,10 @@ func c03Opcode(c *run.Ctx, idx uint64) {
 func c03Structured(c *run.Ctx, idx uint64) {
 	r := c.Rng(idx)
 	n := r.Range(1, 40)
+	if r.Chance(1, 12) {
+		n = 0 // the stream ends with its metadata
+		c.Count("metadata_only_streams", 1)
+	}
 	cut := 0
 	if r.Chance(1, 4) {
 		cut = r.Range(1, 6)
